@@ -189,6 +189,32 @@ func execC15(ctx *Ctx, in *Input) *Result {
 					goJobs = append(goJobs, engbrt.Job{Parser: u.Name, Kind: "soak", Feeds: []engbrt.Feed{fd}, N: soakN, Budget: 3000})
 					goPlans = append(goPlans, plan{sc: sc, u: u, feeds: [][]int{{best}}})
 				}
+				// the global form: 15 000 nested parses that fail and are never popped (the action does not recover, the
+				// caller re-initialises), with a nested parse that succeeds now and then
+				if !u.Variant.Object && !sc.Spec.NoRec {
+					outer, bad, good := -1, -1, -1
+					for fi := range sc.Feeds {
+						f := &sc.Feeds[fi]
+						so := &solo[u.Name][fi]
+						if f.PanicAt >= 0 || len(f.Toks) > 12 {
+							continue
+						}
+						if so.Outcome == "accept" && len(so.Recs) > 0 {
+							if outer < 0 {
+								outer = fi
+							}
+							good = fi
+						}
+						if so.Outcome == "syntax" && bad < 0 {
+							bad = fi
+						}
+					}
+					if outer >= 0 && bad >= 0 && good >= 0 {
+						goJobs = append(goJobs, engbrt.Job{Parser: u.Name, Kind: "soak-nested", N: 15000, Budget: 3000,
+							Feeds: []engbrt.Feed{sc.Feeds[outer].feed(), sc.Feeds[bad].feed(), sc.Feeds[good].feed()}})
+						goPlans = append(goPlans, plan{sc: sc, u: u, feeds: [][]int{{outer, bad, good}}})
+					}
+				}
 			}
 		}
 	}
@@ -216,6 +242,39 @@ func execC15(ctx *Ctx, in *Input) *Result {
 			if now != "budget" && then != now {
 				res.Viol = &Violation{Class: "initialisation-order", Key: "initialisation-order", Sub: pl.u.SpecIdx,
 					Msg: fmt.Sprintf("grammar [%s], variant %s: a parse of the empty input from a package-level initialiser ended %q, the same parse after initialisation ends %q (%s)", pl.sc.Spec.Short(), pl.u.Variant, jr.Boot, now, jr.Parses[0].Msg)}
+				return res
+			}
+			return nil
+		}
+		if jr.Kind == "soak-nested" {
+			if strings.Contains(jr.Err, "needs a global-form parser") {
+				res.Count("nested_parse_not_offered_by_this_tree(no PushContex/PopContex)", 1)
+				return nil
+			}
+			res.Count("soak_nested_histories", 1)
+			res.Count("soak_nested_parses_aborted_and_never_popped", jr.SoakRounds)
+			if jr.Err != "" || len(jr.Parses) == 0 {
+				res.Harness = "engine B soak-nested job: " + jr.Err
+				return res
+			}
+			fo, fg := pl.feeds[0][0], pl.feeds[0][2]
+			first := &jr.Parses[0]
+			d := diffParse2(&solo[pl.u.Name][fo], first, pl.sc, pl.u, true)
+			if d == "" && len(first.Inner) == 1 {
+				d = diffParse2(&solo[pl.u.Name][fg], &first.Inner[0], pl.sc, pl.u, true)
+			} else if d == "" {
+				d = fmt.Sprintf("%d nested parses ran instead of 1", len(first.Inner))
+			}
+			if d != "" {
+				res.Viol = &Violation{Class: "nested-parse-interference", Key: "nested-parse-interference", Sub: pl.u.SpecIdx,
+					Msg: fmt.Sprintf("grammar [%s], variant %s: first round of the nested soak differs from the same inputs parsed alone: %s", pl.sc.Spec.Short(), pl.u.Variant, d)}
+				return res
+			}
+			if jr.SoakDeviation > 0 && len(jr.Parses) > 1 {
+				res.Viol = &Violation{Class: "history-dependence", Key: "history-dependence", Sub: pl.u.SpecIdx,
+					Msg: fmt.Sprintf("grammar [%s], variant %s: after %d parses whose nested parse of [%s] failed without being popped (the caller re-initialised every time), the parse of [%s] with a nested parse of [%s] ends %q (%s) instead of %q",
+						pl.sc.Spec.Short(), pl.u.Variant, jr.SoakDeviation, feedStr(pl.sc.Spec, pl.sc.Feeds[pl.feeds[0][1]].Toks), feedStr(pl.sc.Spec, pl.sc.Feeds[fo].Toks), feedStr(pl.sc.Spec, pl.sc.Feeds[fg].Toks),
+						jr.Parses[1].Outcome, jr.Parses[1].Msg, first.Outcome)}
 				return res
 			}
 			return nil
